@@ -88,7 +88,7 @@ func replay(path string, res *vlib.Result) {
 
 func main() {
 	a := vlib.ParseArgs()
-	res := vlib.NewResult("C02", a.Out, "movement sequences (1-200 calls, biased to reversals: Seek then Prev, zig-zags, stepping off either end and back) on merged / indexed / nested component iterators over generated children and on db / snapshot / transaction iterators of real DBs (tiny buffers, blocks and tables; overwrites, tombstone runs, live snapshots; random [Start,Limit) with bounds equal to / between / outside stored keys or nil) x 4 comparers x layout options; non-trivial = the walk contains a direction reversal on a valid position whose step crossed to another source (child / block / memdb / table) or passed over at least one hidden internal entry (tombstone, overwritten or not-yet-visible version, out-of-range entry) or left the list")
+	res := vlib.NewResult("C02", a.Out, "movement sequences (1-200 calls, biased to reversals: Seek then Prev, zig-zags, stepping off either end and back) on merged / indexed / nested component iterators over generated children and on db / snapshot / transaction iterators of real DBs (tiny buffers, blocks and tables; overwrites, tombstone runs, live snapshots; random [Start,Limit) with bounds equal to / between / outside stored keys or nil) x 4 comparers x layout options; non-trivial = the walk contains a direction reversal on a valid position whose step crossed to another source (child / block / memdb / table) or passed over at least one hidden internal entry (tombstone, overwritten or not-yet-visible version, out-of-range entry) or left the list; error/release walks (merged / indexed / dbIter behind fault-injecting wrappers, calls mixed with Release and SetReleaser): non-trivial = an error was recorded (injected, or ErrIterReleased) or the walk ended in the SetReleaser panic; DB iterator walks under a table read fault of the storage")
 	defer res.Write()
 	if a.Replay != "" {
 		replay(a.Replay, res)
@@ -177,8 +177,8 @@ func main() {
 				}
 				c := genErrCase(r, mm, mk)
 				label := fmt.Sprintf("err/%d", i)
-				kc, failed := runErrCase(c, res, label)
-				res.Eval(label, !failed)
+				kc, failed, nt := runErrCase(c, res, label)
+				res.Eval(label, nt)
 				if !failed && kfriendly && kc != "" {
 					o.kerr = append(o.kerr, kc)
 				}
